@@ -2348,7 +2348,8 @@ write_module_class(ostream &out, Object *obj) {
             string expected_params;
             if (!write_function_forset(out, delattr_remaps, 1, 1, expected_params, 4,
                                        true, true, AT_single_arg, RF_int, true)) {
-              error_bad_args_return(out, 4, RF_int | RF_decref_args, expected_params);
+              // There is no args tuple to release in this branch.
+              error_bad_args_return(out, 4, RF_int, expected_params);
             }
           } else {
             out << "    PyErr_Format(PyExc_TypeError,\n";
